@@ -87,4 +87,7 @@ class PatternMatcher:
         Returns:
             True if path matches any pattern
         """
-        return any(self._get_compiled(pattern).search(path_str) for pattern in allow_patterns)
+        return any(
+            self._get_compiled(self._extract_pattern_and_reason(item)[0]).search(path_str)
+            for item in allow_patterns
+        )
